@@ -340,7 +340,7 @@ impl Tracer for HarnessTracer {
             let mut g = run.inner.lock().unwrap_or_else(|e| e.into_inner());
             let mut hang = g.trace.len() > 400_000;
             if !scheduled && !g.poisoned {
-                if op.kind == OpKind::Load {
+                if matches!(op.kind, OpKind::Load | OpKind::CasFail) {
                     g.owner_loads += 1;
                 } else {
                     g.owner_loads = 0;
@@ -358,7 +358,7 @@ impl Tracer for HarnessTracer {
         }
         yield_point(Pending::Atomic {
             id: op.id,
-            load: op.kind == OpKind::Load,
+            load: matches!(op.kind, OpKind::Load | OpKind::CasFail),
         });
     }
 
@@ -371,6 +371,8 @@ impl Tracer for HarnessTracer {
             OpKind::Load => "ld",
             OpKind::Store => "st",
             OpKind::FetchAdd => "fa",
+            OpKind::Rmw => "rmw",
+            OpKind::CasFail => "ld",
         };
         let ty = match op.ty {
             AtomTy::Usize => "u",
@@ -383,7 +385,7 @@ impl Tracer for HarnessTracer {
             return;
         }
         match op.kind {
-            OpKind::Load => {
+            OpKind::Load | OpKind::CasFail => {
                 let ep = g.write_epoch;
                 g.loaded_at[tid].insert(op.id, ep);
             }
